@@ -21,7 +21,7 @@ enum Piece {
     Esc(&'static str),
 }
 
-const PIECES: [Piece; 8] = [
+const PIECES: [Piece; 9] = [
     Piece::Lit("a"),
     Piece::Lit("b c"),
     Piece::Lit("é"),
@@ -30,6 +30,7 @@ const PIECES: [Piece; 8] = [
     Piece::Var("u"),
     Piece::Var("a.b"),
     Piece::Esc("v"),
+    Piece::Var("s::é1"),
 ];
 const SPREADS: [&str; 3] = ["v", "w", "u"];
 const VSIGMA: [&str; 15] = ["a", " ", "\"", "\\", "#", "$", "{", "}", "%", "\n", "=", "é", "\t", "\r", "\u{a0}"];
@@ -238,6 +239,7 @@ pub fn worker(w: &mut Worker) {
                     }
                     env.insert("w".into(), wv.to_string());
                     env.insert("a.b".into(), "dot".into());
+                    env.insert("s::é1".into(), "sc é".into());
                     let (args, exp) = build(t, pos, &env);
                     let cj = json!({"written": args, "v": v, "w": wv, "via": "run_instruction"});
                     w.begin(|| cj.clone());
@@ -297,6 +299,7 @@ pub fn worker(w: &mut Worker) {
                     }
                     env.insert("w".into(), "p q".to_string());
                     env.insert("a.b".into(), "dot".into());
+                    env.insert("s::é1".into(), "sc é".into());
                     let (args, exp) = build(t, pos, &env);
                     let cj = json!({"written": args, "v": v, "w": "p q", "via": "run_script", "quote_optional": quote});
                     w.begin(|| cj.clone());
@@ -344,6 +347,7 @@ pub fn replay(case: &Value) -> Result<String, String> {
         env.insert("w".into(), v.into());
     }
     env.insert("a.b".into(), "dot".into());
+    env.insert("s::é1".into(), "sc é".into());
     let mut rig = Rig::new();
     let got = if case["via"] == "run_script" {
         rig.via_parser(&args, &env, case["quote_optional"].as_bool().unwrap_or(false))
@@ -357,7 +361,7 @@ pub fn crash_sig(_case: &Value, kind: &str) -> String {
     kind.to_string()
 }
 
-pub const RULE: &str = "every template of 1..3 pieces from {a, 'b c', e-acute, ${v}, ${w}, ${u} (undefined), ${a.b}, \\${v}} and the whole-argument forms %{v} %{w} %{u}, in three argument positions (alone, first of two, last of three after a spread), x every value of v (undefined, every string up to the length bound over {a SP \" \\ # $ { } % LF = e-acute TAB CR NBSP}, 9 special values such as '${w}' and '  ') x 8 values of w (only where the argument list mentions them); bound by runner::run_instruction and observed by a capture command; a second family writes the same templates as script text (plain and quoted) and runs them through run_script. Oracle: one-pass reference substitution; spread = space-separated non-empty words. Non-trivial: the argument list mentions v or w. states = distinct (received count, position, kind) classes; transitions = real bindings";
+pub const RULE: &str = "every template of 1..3 pieces from {a, 'b c', e-acute, ${v}, ${w}, ${u} (undefined), ${a.b}, ${s::e1} (name with '::', a digit and a non-ASCII letter), \\${v}} and the whole-argument forms %{v} %{w} %{u}, in three argument positions (alone, first of two, last of three after a spread), x every value of v (undefined, every string up to the length bound over {a SP \" \\ # $ { } % LF = e-acute TAB CR NBSP}, 9 special values such as '${w}' and '  ') x 8 values of w (only where the argument list mentions them); bound by runner::run_instruction and observed by a capture command; a second family writes the same templates as script text (plain and quoted) and runs them through run_script. Oracle: one-pass reference substitution; spread = space-separated non-empty words. Non-trivial: the argument list mentions v or w. states = distinct (received count, position, kind) classes; transitions = real bindings";
 pub const ASSUMPTIONS: &[&str] = &["spread values containing a double quote or '#' are only checked for 'no panic' (their grouping is pinned by the repository's own tests, not by the statement)", "arguments that mix text with %{..} are outside the property's template domain"];
 pub const EXHAUSTIVE: bool = true;
 pub const WALL_CAP_S: (u64, u64) = (50, 1500);
